@@ -120,6 +120,18 @@ KANI_UNITS['wasmops'] = {
   'harnesses': {('wasm_op_' + o): {'tier': 'quick', 'complete': True} for o in _OPS},
 }
 
+KANI_UNITS['prec'] = {
+  'crate': 'samlang-ast',
+  'module': 'source::verif_kani',
+  'splices': [('crates/samlang-ast/src/source.rs', 'kx/harness/samlang-ast/source.rs', 'verif_kani')],
+  'functions': ['expr::BinaryOperator::precedence', 'expr::E::precedence'],
+  'harnesses': {
+    'operator_precedence_mirrors_grammar_levels': {'tier': 'quick', 'complete': True},
+    'operator_precedence_mirrors_grammar_levels_except_concat': {'tier': 'quick', 'complete': True},
+    'expression_precedence_mirrors_grammar_levels': {'tier': 'quick', 'complete': True},
+  },
+}
+
 KANI_UNITS['tsops'] = {
   'crate': 'samlang-ast',
   'module': 'lir::verif_kani',
@@ -173,6 +185,14 @@ PROPERTIES = {
     'level': 'proof',
     'scope': 'one clause only: an integer literal outside the 32-bit range is reported (TokenProducer::process_raw_token); '
              'every checker-side clause of C06 (types, arity, resolution, visibility, conformance, exhaustiveness) is not covered',
+  },
+  'C08': {
+    'verus': ['paren'],
+    'kani': ['prec'],
+    'level': 'proof',
+    'scope': 'kernels only: the precedence table used by the formatter against the grammar\'s binding levels, and the '
+             'parenthesis decision for the operands of a binary expression; literals, every other construct, the layout engine, '
+             'import sorting and re-parsing as such are not covered',
   },
   'C10': {
     'verus': ['depgraph'],
@@ -261,6 +281,15 @@ STANDING_ASSUMPTIONS = {
     'Heap, ErrorSet, PStr, WrappedLogosLexer are opaque (R7); str::parse::<i64> is modelled by decimal_value (Ok exactly for numerals that fit i64); format!("-{s}") prepends a minus sign',
     'the lexer produces only numerals 0|[1-9][0-9]* for IntLiteral tokens (logos regex, not checked); tokens of one producer share their module reference',
     'the parser later turns the literal text into an i32 with parse::<i32>().unwrap_or(0): that the accepted texts parse is implied by the proved range, not re-checked',
+  ],
+  'prec': [
+    'CBMC 6.11 / Kani 0.68; all 14 x 14 operator pairs; the grammar levels || < && < comparisons < + - < * / % < :: < unary < postfix are taken from the property statement (and the parser functions parse_disjunction .. parse_concat)',
+  ],
+  'paren': [
+    'documents are abstract (how they were built): create_doc / parenthesis_surrounded_doc / Document::concat are uninterpreted constructors; a parenthesised document differs from the bare one',
+    'E::precedence is the number checked by Kani unit prec; the syntax tree is opaque (R7)',
+    'compositionality to deeper trees is an argument (each decision looks only at a node and its two children), not a proof',
+    'R14: the Binary arm of create_doc_without_preceding_comment is extracted as a block; R3 stubs for the comment docs and the operator text',
   ],
   'pstr': [
     'CBMC 6.11 / Kani 0.68 bit-precise semantics of Rust MIR; little-endian x86_64 layout of the union',
